@@ -81,6 +81,8 @@ type ChanObj struct {
 	Label       string
 	taken       int // values received so far (rendezvous bookkeeping)
 	sendWaiting int
+	timerD      *Term // time.Timer channels: the duration the timer was last armed with ...
+	timerArm    *Term // ... and the model clock at that moment
 }
 type Chan struct{ C *ChanObj }
 
